@@ -37,7 +37,7 @@ def shards(tier, seed):
 def requirements(tier):
     r = {f"judged:{n}": 100 for n in LINEAR}
     r.update({"judged:UPGrad": 200, "upgrad_rungs_checked": 1000, "w_upgrad_conflict_on_every_rung": 100, "w_row_scale_spread_1e4": 500,
-              "w_upgrad_pref_vector": 50, "w_pcgrad_conflict": 50, "w_float32": 100, "rng_recorder_hits": 1})
+              "w_upgrad_pref_vector": 50, "w_upgrad_default_norm_eps": 100, "w_pcgrad_conflict": 50, "w_float32": 100, "rng_recorder_hits": 1})
     return r
 
 
@@ -140,7 +140,9 @@ def gen_upgrad(rng, i):
     J = J * float(10 ** rng.uniform(-4, 4))
     pref = [float(x) for x in np.round(rng.uniform(0.1, 2.0, size=m), 3)] if rng.random() < 0.4 else None
     c1, c2, a, b = gen_scalings(rng, m)
-    return {"J": J.tolist(), "class": klass, "dtype": "float64", "pref": pref, "c1": c1.tolist(), "c2": c2.tolist(), "a": a, "b": b}
+    # norm_eps: the default (1e-4: every judged matrix must then be clearly above it), or far below every matrix
+    return {"J": J.tolist(), "class": klass, "dtype": "float64", "pref": pref, "c1": c1.tolist(), "c2": c2.tolist(), "a": a, "b": b,
+            "norm_eps": "default" if rng.random() < 0.5 else 1e-30}
 
 
 def check_upgrad(case, ctx):
@@ -153,8 +155,15 @@ def check_upgrad(case, ctx):
     conflict = M.has_conflict(J)
     all_rungs = True
     last = None
+    ne = case.get("norm_eps", 1e-30)
+    if ne == "default" and min(M.smax(X) for X in Xs) < 4e-4:
+        ne = 1e-30  # (a matrix at or below the default norm_eps = 1e-4 is legitimately mapped to zero: not the subject here)
+    if ne == "default":
+        ctx.count("w_upgrad_default_norm_eps")
     for reg in LADDER:
-        desc = {"name": "UPGrad", "pref": case["pref"], "reg_eps": reg, "norm_eps": 1e-30}
+        desc = {"name": "UPGrad", "pref": case["pref"], "reg_eps": reg}
+        if ne != "default":
+            desc["norm_eps"] = ne
         outs, recs, failed = [], [], False
         for X in Xt:
             o, err, rec = E.run(desc, X)
